@@ -189,7 +189,10 @@ def run_ensembles(ctx, count, np_, steps):
 
 def run_program(ctx, count):
     """inovesa itself with a tracking file holding edge particles: every record of /Particles/data must lie
-    within the axes (the coordinates are looked up in the axis arrays, so they are axis values)"""
+    within the axes; the coordinates are looked up in the axis arrays (HDF5File::appendTracks: q(floor x), p(floor y)), so
+    every recorded position must be a value of /Info/AxisValues_z and every recorded energy a value of
+    /Info/AxisValues_E, and the first record (written before any map is applied) must be the cell the coordinate given
+    in the tracking file falls into.  Half of the runs shift the two axes differently (--PhaseSpaceShiftX/Y)."""
     rng = ctx.rng
     tg = ctx.build(harness=("impl_track", "h5cat"), want_binary=True)
     env = vp_build.xdg_env()
@@ -197,6 +200,9 @@ def run_program(ctx, count):
         n = rng.choice([32, 48, 64])
         fptrack = i % 4
         steps = rng.choice([20, 40])
+        shx, shy = (0.0, 0.0)
+        if i % 2 == 1:
+            shx, shy = rng.choice([(0.0, 3.0), (2.0, -1.0), (-2.5, 1.0), (1.5, 0.0), (3.0, 0.5)])
         with tempfile.TemporaryDirectory(prefix="c15-") as td:
             tf = os.path.join(td, "track.txt")
             pts = [(-5.99, -5.99), (5.99, 5.99), (-7.0, 7.0), (0.0, 0.0), (6.0, -6.0), (0.1, 5.9), (-5.9, 0.2)]
@@ -207,33 +213,65 @@ def run_program(ctx, count):
             h5 = os.path.join(td, "out.h5")
             cmd = ["timeout", "120", tg["inovesa"], "--gui", "false", "-s", str(n), "-T", "0.5", "-N", str(steps),
                    "-n", "2", "--tracking", tf, "--FPTrack", str(fptrack), "-o", h5, "-I", "1e-4"]
+            if (shx, shy) != (0.0, 0.0):
+                cmd += ["--PhaseSpaceShiftX", repr(shx), "--PhaseSpaceShiftY", repr(shy)]
             r = subprocess.run(cmd, capture_output=True, text=True, env=env, cwd=td)
-            case = dict(kind="program", n=n, fptrack=fptrack, steps=steps, particles=pts, cmd=" ".join(cmd[2:]))
+            case = dict(kind="program", n=n, fptrack=fptrack, steps=steps, particles=pts, shift_x=shx, shift_y=shy, cmd=" ".join(cmd[2:]))
             if not os.path.exists(h5):
                 # how a crash shows: no file or a signal
                 ctx.violation("impl-oracle", "inovesa did not produce a results file with tracking on (rc=%d)" % r.returncode, case=case,
                               observed=(r.stdout + r.stderr)[-600:], sig=dict(kind="program", clause="ran", fptrack=fptrack))
                 continue
-            d = subprocess.run(["timeout", "60", tg["h5cat"], h5, "--values", "--only", "/Particles/data"], capture_output=True, text=True)
+            d = subprocess.run(["timeout", "60", tg["h5cat"], h5, "--values", "--only", "/Particles/data", "--only", "/Info/AxisValues_z",
+                                "--only", "/Info/AxisValues_E"], capture_output=True, text=True)
             vals = _h5vals(d.stdout)
-            ctx.extra.setdefault("program_runs", []).append(dict(n=n, fptrack=fptrack, rc=r.returncode, records=len(vals)))
+            az, ae = _h5vals(d.stdout, "/Info/AxisValues_z"), _h5vals(d.stdout, "/Info/AxisValues_E")
+            ctx.extra.setdefault("program_runs", []).append(dict(n=n, fptrack=fptrack, rc=r.returncode, records=len(vals), shift=[shx, shy]))
             if r.returncode != 0 or not vals:
                 ctx.violation("impl-oracle", "inovesa failed or wrote no /Particles/data (rc=%d)" % r.returncode, case=case,
                               observed=(r.stdout + r.stderr)[-600:] + d.stderr[-300:], sig=dict(kind="program", clause="ran", fptrack=fptrack))
                 continue
-            bad = [v for v in vals if isinstance(v, str) or abs(v) > Fraction(6) + Fraction(1, 1000)]
+            num = lambda l: [v for v in l if not isinstance(v, str)]
+            lim = max([abs(v) for v in num(az) + num(ae)] + [Fraction(6)]) + Fraction(1, 1000)
+            bad = [v for v in vals if isinstance(v, str) or abs(v) > lim]
             if bad:
                 ctx.violation("impl-oracle", "/Particles/data holds a coordinate outside the axes", case=case,
-                              observed=[str(b) for b in bad[:5]], expected="|q|,|p| <= 6", sig=dict(kind="program", clause="inside", fptrack=fptrack))
-            ctx.case_done(("program", i, n, fptrack), True)
+                              observed=[str(b) for b in bad[:5]], expected="|q|,|p| <= %s" % float(lim), sig=dict(kind="program", clause="inside", fptrack=fptrack))
+            elif len(az) == n and len(ae) == n and len(vals) % (2 * len(pts)) == 0:
+                sz, se = set(az), set(ae)
+                offq = [(k, str(float(v))) for k, v in enumerate(vals) if k % 2 == 0 and v not in sz]
+                offp = [(k, str(float(v))) for k, v in enumerate(vals) if k % 2 == 1 and v not in se]
+                if offq or offp:
+                    ctx.violation("impl-oracle", "a recorded particle coordinate is not a value of its axis (position: /Info/AxisValues_z, energy: /Info/AxisValues_E)",
+                                  case=case, observed=dict(position=offq[:4], energy=offp[:4]), expected="appendTracks records q(floor x), p(floor y)",
+                                  sig=dict(kind="program", clause="axis-values", fptrack=fptrack))
+                else:
+                    # first record: the cell the file coordinate falls into (PhaseSpace::x/y clamp to the grid, then truncation)
+                    def cell(c, ax):
+                        lo, dl = ax[0], (ax[-1] - ax[0]) / (n - 1)
+                        g = min(max(Fraction(0), (Fraction(c) - lo) / dl), Fraction(n - 1))
+                        return g
+                    for j, (q, p) in enumerate(pts):
+                        for k, (c, ax, nm) in enumerate(((q, az, "position"), (p, ae, "energy"))):
+                            g = cell(f32(c), ax)
+                            rec = vals[2 * j + k]
+                            idx = ax.index(rec)
+                            # float rounding of (c-min)/delta may move a coordinate that sits within 1e-4 cells of a cell boundary
+                            if not (g - 1 - Fraction(1, 10000) <= idx <= g + Fraction(1, 10000)):
+                                ctx.violation("impl-oracle", "the first record of /Particles/data is not the cell the tracking file's coordinate falls into (%s axis)" % nm,
+                                              case=case, observed=dict(particle=j, file_coordinate=c, recorded=float(rec), recorded_cell=idx, grid_coordinate=float(g)),
+                                              expected="cell floor(grid coordinate)", sig=dict(kind="program", clause="first-record", fptrack=fptrack))
+                                break
+            ctx.case_done(("program", i, n, fptrack, shx, shy), True)
             ctx.count("program:fptrack%d" % fptrack)
+            ctx.count("program:%s" % ("shifted" if (shx, shy) != (0.0, 0.0) else "unshifted"))
 
 
-def _h5vals(text):
+def _h5vals(text, path="/Particles/data"):
     vals = []
     for line in text.splitlines():
         p = line.split()
-        if len(p) > 1 and p[0] == "data" and p[1] == "/Particles/data":
+        if len(p) > 1 and p[0] == "data" and p[1] == path:
             vals += [parse_c(t) for t in p[2:]]
     return vals
 
@@ -273,8 +311,7 @@ def run(ctx, only_case=None):
         oracle_blob(ctx, b, bres[b.cid])
     ctx.sample(blobs[0].replay())
     run_ensembles(ctx, 6 if q else 16, 4000 if q else 20000, 400 if q else 1200)
-    if not q:
-        run_program(ctx, 8)
+    run_program(ctx, 4 if q else 12)
     ctx.extra["correspondence_disagreements"] = len(dis)
     ctx.assumptions += ["exact-arithmetic model; rounding handled by the exact/tolerance streams (DESIGN 3); the clamp is exact in float, so the "
                         "inside-grid theorem transfers to the float code whatever the rounding of the unclamped value",
